@@ -1030,8 +1030,13 @@ fn check_trace(ctx: &mut Ctx, what: &str, gdir: &GDir, gc_livings: &[Vec<String>
                     // watcher publications are matched to sessions by generation id, which is drawn
                     // just after the lock is released: two sessions can swap there
                     let other = rk.0 == 900 && v.loads.iter().any(|((r, _), jj)| *r == 900 && c.contains(&(*jj as usize)));
+                    // the searcher is read after reload() has returned: a reload of the same reader
+                    // that started later may have published in between
+                    let overtaken = v.pubs.iter().any(|((r, k), jj)| *r == rk.0 && *k > rk.1 && c.contains(&(*jj as usize)));
                     if other {
                         ctx.report.count("trace:watcher-generation-order-ambiguous");
+                    } else if overtaken {
+                        ctx.report.count("trace:observation-overtaken-by-later-reload");
                     } else {
                         ctx.report.violation("model", "C05:model-commit-differs", format!("{what}: reload {rk:?}: model says meta {j}, the searcher's segments are those of metas {c:?}"), case.clone());
                     }
